@@ -5,9 +5,10 @@ import RepeVerif.Driver.Common
 Driver for the `commit` correspondence family (C10).
 
 ```
-SCRIPT := <puller> <comp none|zstd> <fmt beve|raw> <open ok|err|cut> <verify ok|rej> <trailer N>
-          <dest old|none|dir|olds|nones> <stop -|N> <dec -|err|B> <fault -|N|sync> wire <resp>…
+SCRIPT := <puller> <comp none|zstd> <fmt beve|raw> <open ok|err|cut> <verify ok|rej|panic> <trailer N>
+          <dest old|none|dir|olds|nones|noparent|symparent> <stop -|N> <dec -|err|B> <fault -|N|sync> wire <resp>…
   puller := file | bevezst | beve | trailer | fileasync | verifiedasync | trailerasync
+            (an async puller may carry the suffix `@ws`: driven over a WebSocketClient; same model)
   resp   := c:<B>:<0|1>  (chunk body, last flag) | e (error response) | x (connection cut)
   B      := <H> (hex) | g<seed>.<len> (`genBytes seed len`, for large bodies)
   fault  := N: the temp file takes N bytes and the write of the next one fails (the pulling child runs
@@ -24,6 +25,12 @@ trace <i> SCRIPT :: <sys>…        -> <i> trace <accept|reject@pos> <match|expe
                                                  failed rename, unlink of the temp file, D = dest touched)
 kill <i> <syscall>:<N> SCRIPT :: <same|L:FNV>   -> <i> kill <ok|BAD>   (destination observed after SIGKILL on
                                                   entry to the N-th such syscall on the two paths)
+sibling <i> <name H>              -> <i> temp <H>   (name of the temp sibling: `tempSibling Gen.Commit.tempSuffix`)
+nest <i> <nameA H> <nameB H> SCRIPT_A :: SCRIPT_B
+                                  -> <i> A ret .. dest .. tmp .. B ret .. dest .. tmp ..  | <i> alias
+                                     (pull B runs to its end inside pull A's verify, same directory; by
+                                     `pulls_do_not_interfere` each behaves as if alone unless one's destination
+                                     is the other's temp sibling)
 real <i> <reader|writer> <chunk N> <fail -|N> <depth N> <payload H> SCRIPT   -> as `script` (real `Server`,
                                                   producer failing after N bytes; SCRIPT = what the client saw)
 value <i> <sync|async> <comp> <fmt> <open> need <N> <dec> wire <resp>…  -> <i> ret <ok L:FNV|err>
@@ -68,6 +75,7 @@ structure Parsed where
   s : Script
   codec : Codec
   stale : Bool := false   -- a stale temp file exists before the pull
+  verifyPanics : Bool := false
 
 def compOf : String → Option Comp
   | "none" => some .none | "zstd" => some .zstd | _ => none
@@ -82,17 +90,17 @@ def parseScript (ws : List String) : Option (Parsed × List String) :=
   | pu :: co :: fm :: op :: ve :: tr :: de :: st :: dc :: wf :: "wire" :: rest =>
     let wireWs := rest.takeWhile (· ≠ "::")
     let after := (rest.dropWhile (· ≠ "::")).drop 1
-    match pullerOf pu, compOf co, allSome (wireWs.map respOf), decOf dc with
+    match pullerOf (if pu.endsWith "@ws" then (pu.dropEnd 3).toString else pu), compOf co, allSome (wireWs.map respOf), decOf dc with
     | some p, some comp, some wire, some dec =>
-      if (fm = "beve" ∨ fm = "raw") ∧ (op = "ok" ∨ op = "err" ∨ op = "cut") ∧ (ve = "ok" ∨ ve = "rej")
-          ∧ (de = "old" ∨ de = "none" ∨ de = "dir" ∨ de = "olds" ∨ de = "nones") ∧ tr.isNat ∧ (st = "-" ∨ st.isNat) ∧ (wf = "-" ∨ wf = "sync" ∨ wf.isNat) then
+      if (fm = "beve" ∨ fm = "raw") ∧ (op = "ok" ∨ op = "err" ∨ op = "cut") ∧ (ve = "ok" ∨ ve = "rej" ∨ ve = "panic")
+          ∧ (de = "old" ∨ de = "none" ∨ de = "dir" ∨ de = "olds" ∨ de = "nones" ∨ de = "noparent" ∨ de = "symparent") ∧ tr.isNat ∧ (st = "-" ∨ st.isNat) ∧ (wf = "-" ∨ wf = "sync" ∨ wf.isNat) then
         let stop := if st = "-" then none else some (natOf st)
         if stop.isSome ∧ !p.usesWriteFile then none else
         some (⟨p, { openOk := op = "ok", comp := comp, beve := fm = "beve", wire := wire, stop := stop,
                     verifyOk := ve = "ok", trailer := natOf tr, renameOk := de ≠ "dir",
                     writeFault := if wf = "-" ∨ wf = "sync" then none else some (natOf wf),
-                    syncOk := wf ≠ "sync" },
-                ⟨fun _ => dec, fun _ => []⟩, de = "olds" ∨ de = "nones"⟩, after)
+                    syncOk := wf ≠ "sync", createOk := de ≠ "noparent" },
+                ⟨fun _ => dec, fun _ => []⟩, de = "olds" ∨ de = "nones", ve = "panic"⟩, after)
       else none
     | _, _, _, _ => none
   | _ => none
@@ -129,7 +137,11 @@ def scriptObs (q : Parsed) : String :=
   let dest := if fs.dest = some [0] then "same" else match fs.dest with
     | some c => digest c
     | none => "gone"
-  let base := joinSp ["ret", showRet r.ret, "dest", dest, "tmp", if fs.tmp.isSome then "1" else "0"]
+  -- a panicking `verify` has the file-system effect of a rejecting one (the unwinding drops the guard);
+  -- the call unwinds instead of returning `Err` exactly when `verify` is reached
+  let reached := q.verifyPanics && q.p.verifies &&
+    (run Gen.Commit.steps q.p { q.s with verifyOk := true, renameOk := true } q.codec).ret == .ok
+  let base := joinSp ["ret", if reached then "panic" else showRet r.ret, "dest", dest, "tmp", if fs.tmp.isSome then "1" else "0"]
   if q.p.hasTrailer ∧ r.ret = .ok then
     let h := Hold.run q.s.trailer (decoded q.p q.s q.codec).writes
     base ++ " seen " ++ digest h.out.flatten ++ " trailer " ++ hexOfBytes h.hold
@@ -177,6 +189,26 @@ def step (st : Unit) (ws : List String) : Unit × String :=
         (st, joinSp [idx, "trace", acc, if same then "match" else "expected:" ++ ",".intercalate (want.map showSys)])
       | none => (st, idx ++ " bad-op")
     | none => (st, idx ++ " bad-op")
+  | ["sibling", idx, nm] =>
+    match bytesOfHex nm with
+    | some b => (st, idx ++ " temp " ++ hexOfBytes (b ++ Gen.Commit.tempSuffix.toUTF8.toList))
+    | none => (st, idx ++ " bad-op")
+  | "nest" :: idx :: na :: nb :: rest =>
+    match bytesOfHex na, bytesOfHex nb, parseScript rest with
+    | some a, some b, some (qa, rest2) =>
+      match parseScript rest2 with
+      | some (qb, []) =>
+        let sfx := Gen.Commit.tempSuffix.toUTF8.toList
+        if a = b ∨ a ++ sfx = b ∨ b ++ sfx = a then (st, idx ++ " alias")
+        else
+          let short := fun (q : Parsed) =>
+            let r := runOf q
+            let fs := runOps ⟨some [0], none⟩ r.ops
+            joinSp ["ret", showRet r.ret, "dest", (if fs.dest = some [0] then "same" else match fs.dest with
+              | some c => digest c | none => "gone"), "tmp", if fs.tmp.isSome then "1" else "0"]
+          (st, joinSp [idx, "A", short qa, "B", short qb])
+      | _ => (st, idx ++ " bad-op")
+    | _, _, _ => (st, idx ++ " bad-op")
   | "real" :: idx :: _prod :: _chunk :: _fail :: _depth :: _payload :: rest =>
     -- a pull from the crate's own `Server`; the harness states the script the client saw
     match parseScript rest with
